@@ -30,6 +30,7 @@ import (
 	"verif/harness/internal/gt"
 	"verif/harness/internal/keys"
 	"verif/harness/internal/probe"
+	"verif/harness/internal/sgen"
 	"verif/harness/internal/strs"
 )
 
@@ -758,5 +759,74 @@ func TestPropConcurrentStepsOfOnePipeline(t *testing.T) {
 		nt := aliasing["a"] >= 2 || aliasing["b"] >= 2
 		recSteps.Case(ev.HashStr(text), nt, fmt.Sprintf("steps=%d", n))
 		recSteps.MaybeSample(nt, func() any { return text })
+	})
+}
+
+// ---------------------------------------------------------------------------
+// A step built in Go rather than parsed holds shapes no parse produces (a nil value list for a declared
+// dimension, nil next to empty containers everywhere). Observing it - marshalling, signing, verifying,
+// concurrently - must leave exactly those shapes alone.
+
+var recBuilt = ev.New("TestPropSharedStructBuiltStep", "command steps built as structs (sgen, including nil value lists for declared dimensions, nil and empty env / plugins / configs / matrix parts) shared by 16 goroutines that marshal it to JSON and YAML, sign it and verify the signature they made (race detector on); the object-model snapshot taken before the first observer must equal the one taken after the last, nil-exactly; non-trivial = the step has a matrix or a plugin; distinct by step")
+
+func TestPropSharedStructBuiltStep(t *testing.T) {
+	ctx := context.Background()
+	pool := keys.Pool()
+	ev.Check(t, 40, 600, func(t *rapid.T) {
+		g := sgen.New(t, sgen.Opts{SimpleStrings: true, NilDims: true})
+		step, _ := g.Step()
+		penv := g.EnvMap("penv", 3)
+		kp := pool[rapid.IntRange(0, 1).Draw(t, "fast")]
+		before := gt.Show(canon.Step(step, canon.Raw))
+		penvBefore := fmt.Sprint(penv)
+		const workers = 16
+		var wg sync.WaitGroup
+		start := make(chan struct{})
+		errs := make([]string, workers)
+		for i := 0; i < workers; i++ {
+			wg.Add(1)
+			go func(i int) {
+				defer wg.Done()
+				defer func() {
+					if x := recover(); x != nil {
+						errs[i] = fmt.Sprintf("PANIC: %v", x)
+					}
+				}()
+				<-start
+				for round := 0; round < 2; round++ {
+					if _, err := json.Marshal(step); err != nil {
+						errs[i] = "json.Marshal: " + err.Error()
+					}
+					if _, err := yaml.Marshal(step); err != nil && !strings.Contains(err.Error(), "did not find expected") {
+						errs[i] = "yaml.Marshal: " + err.Error()
+					}
+					sf := &signature.CommandStepWithInvariants{CommandStep: *step, RepositoryURL: "repo"}
+					sig, err := signature.Sign(ctx, kp.Priv, sf, signature.WithEnv(penv))
+					if err != nil {
+						errs[i] = "Sign: " + err.Error()
+						continue
+					}
+					if err := signature.Verify(ctx, sig, kp.Pub, sf, signature.WithEnv(penv)); err != nil {
+						errs[i] = "Verify of the signature just made: " + err.Error()
+					}
+				}
+			}(i)
+		}
+		close(start)
+		wg.Wait()
+		for i, e := range errs {
+			if e != "" {
+				t.Fatalf("goroutine %d observing the shared step: %s\nstep: %s", i, e, before)
+			}
+		}
+		if after := gt.Show(canon.Step(step, canon.Raw)); after != before {
+			t.Fatalf("marshalling / signing / verifying modified the step they observe:\nbefore %s\nafter  %s", before, after)
+		}
+		if fmt.Sprint(penv) != penvBefore {
+			t.Fatalf("Sign / Verify modified the shared env map")
+		}
+		nt := step.Matrix != nil || len(step.Plugins) > 0
+		recBuilt.Case(ev.HashStr(before), nt)
+		recBuilt.MaybeSample(nt, func() any { return before })
 	})
 }
